@@ -623,27 +623,51 @@ async def drive_companion(W, cvar, resp, pt, init="same"):
 
 
 def fake_http(resp):
+    """HttpConnection whose requests are answered by the harness accessory; every request is logged
+    as (method, path, kind) with kind in hap-verify / legacy-verify / transient / other."""
     from pyatv.support.http import HttpConnection, HttpResponse
 
     class Http(HttpConnection):
-        async def post(self, path, headers=None, body=None, allow_error=False):
+        def __init__(self):
+            super().__init__()
+            self.log = []
+            self._local_ip = self._remote_ip = "127.0.0.1"
+
+        async def send_and_receive(self, method, uri, protocol="HTTP/1.1", user_agent=None, content_type=None,
+                                   headers=None, body=None, allow_error=False, timeout=10):
             await asyncio.sleep(0)
-            if path == "/pair-setup":
+            proto, ver = protocol.split("/")
+            hdrs = {}
+            if headers and "CSeq" in headers:
+                hdrs["CSeq"] = str(headers["CSeq"])
+            raw = body if isinstance(body, bytes) else b""
+            if method == "POST" and uri == "/pair-setup":
                 # transient pairing (fixed PIN, no identity): any device can answer it
-                t = tlv_dec(body or b"")
+                self.log.append((method, uri, "transient"))
+                t = tlv_dec(raw)
                 seq = t.get(6) if isinstance(t, dict) else None
                 rnd = random.Random(resp.W.wseed)
                 if seq == b"\x01":
                     ans = tlv_enc([(6, b"\x02"), (2, rnd.randbytes(16)), (3, b"\x7f" + rnd.randbytes(383))])
                 else:
                     ans = tlv_enc([(6, b"\x04"), (4, rnd.randbytes(64))])
-                return HttpResponse("HTTP", "1.1", 200, "OK", {"content-type": "application/octet-stream"}, ans)
-            if path != "/pair-verify":
-                return HttpResponse("HTTP", "1.1", 200, "OK", {}, b"")
-            ans = resp.on_message(body or b"")
+                return HttpResponse(proto, ver, 200, "OK", dict(hdrs, **{"content-type": "application/octet-stream"}), ans)
+            if method == "POST" and uri == "/pair-verify" and len(raw) == 68 and raw[:4] == b"\x01\x00\x00\x00":
+                # legacy device verification, first message: the device's curve key and some data
+                self.log.append((method, uri, "legacy-verify"))
+                return HttpResponse(proto, ver, 200, "OK", hdrs, x_pub(resp.W.eph["A"]) + random.Random(resp.W.wseed).randbytes(64))
+            if method == "POST" and uri == "/pair-verify" and raw[:4] == b"\x00\x00\x00\x00" and len(raw) == 68:
+                self.log.append((method, uri, "legacy-verify"))
+                return HttpResponse(proto, ver, 200, "OK", hdrs, b"")
+            if not (method == "POST" and uri == "/pair-verify"):
+                self.log.append((method, uri.split("/")[-1] if uri.startswith("rtsp://") else uri, "other"))
+                hdrs.update({"Transport": "RTP/AVP/UDP;unicast;mode=record;control_port=1;timing_port=2;server_port=3", "Session": "1"})
+                return HttpResponse(proto, ver, 200, "OK", hdrs, b"")
+            self.log.append((method, uri, "hap-verify"))
+            ans = resp.on_message(raw)
             if ans is None:
-                raise asyncio.TimeoutError()      # what send_and_receive does after its timeout
-            return HttpResponse("HTTP", "1.1", 200, "OK", {"content-type": "application/octet-stream"}, ans)
+                raise asyncio.TimeoutError()      # what the real send_and_receive does after its timeout
+            return HttpResponse(proto, ver, 200, "OK", dict(hdrs, **{"content-type": "application/octet-stream"}), ans)
 
     return Http()
 
@@ -1186,20 +1210,14 @@ def case_bytes(W, case, res):
     return out
 
 
-def coq_case(W, case, res, nm):
-    t = nm.term
-    ltpk, ltsk, atv, cid = W.creds(case.get("cvar"))
-    h = "{| v_priv := %s; v_pub := %s |}" % (t(res["cpriv"]), t(res["cpub"]))
-    c = "{| ltpk := %s; ltsk := %s; atv_id := %s; client_id := %s |}" % (t(ltpk), t(ltsk), t(atv), t(cid))
-    T = res["judge"]["tables"]
-
+def coq_tables(T, t):
     def keys(ks):
         return "[" + "; ".join(t(k) for k in ks) + "]"
 
     def optb(v):
         return "None" if v is None else "(Some %s)" % t(v)
 
-    tab = "{| t_x := [%s]; t_hkdf := [%s]; t_dec := [%s]; t_enc := [%s]; t_pk := [%s]; t_sig := [%s]; t_sign := [%s] |}" % (
+    return "{| t_x := [%s]; t_hkdf := [%s]; t_dec := [%s]; t_enc := [%s]; t_pk := [%s]; t_sig := [%s]; t_sign := [%s] |}" % (
         "; ".join("(%s, %s)" % (keys(k), optb(v)) for k, v in T["x"]),
         "; ".join("(%s, %s)" % (keys(k), t(v)) for k, v in T["hkdf"]),
         "; ".join("(%s, %s)" % (keys(k), optb(v)) for k, v in T["dec"]),
@@ -1207,6 +1225,19 @@ def coq_case(W, case, res, nm):
         "; ".join("(%s, %s)" % (keys(k), common.cbool(v)) for k, v in T["pk"]),
         "; ".join("(%s, %s)" % (keys(k), common.cbool(v)) for k, v in T["sig"]),
         "; ".join("(%s, %s)" % (keys(k), optb(v)) for k, v in T["sign"]))
+
+
+def coq_case(W, case, res, nm):
+    t = nm.term
+    ltpk, ltsk, atv, cid = W.creds(case.get("cvar"))
+    h = "{| v_priv := %s; v_pub := %s |}" % (t(res["cpriv"]), t(res["cpub"]))
+    c = "{| ltpk := %s; ltsk := %s; atv_id := %s; client_id := %s |}" % (t(ltpk), t(ltsk), t(atv), t(cid))
+    T = res["judge"]["tables"]
+
+    def optb(v):
+        return "None" if v is None else "(Some %s)" % t(v)
+
+    tab = coq_tables(T, t)
 
     def opte(e):
         return "None" if e is None else "(Some %s)" % e
@@ -1421,6 +1452,167 @@ def gen_announced(ctx, W, full):
                 out.append({"family": "announce:connect:" + name, "spec": spec, "cvar": None, "f1": None, "f3": None,
                             "wseed": W.wseed, "id_len": len(W.acc["A"].ident), "announce": {"stored": "hap", "props": props, "connect": True}})
     return out
+
+
+# --------------------------------------------------------------------------- the stream entry points
+STREAM_ENTRIES = [("v1", "setup"), ("v1", "play_url"), ("v2", "setup"), ("v2", "play_url")]
+STREAM_CLASS = {"v1": "AirPlayV1", "v2": "AirPlayV2"}
+
+
+async def drive_stream_entry(W, case, resp, pt):
+    """AirPlayStream.create_airplay_protocol(service, rtsp) picks AirPlayV1 / AirPlayV2 (by the
+    raop.protocol_version setting or by what the receiver announces); then setup() - what streaming
+    does first - or play_url().  Everything sent on the connection is logged."""
+    from pyatv import conf
+    from pyatv.const import Protocol
+    from pyatv.core import Core, CoreStateDispatcher, MutableService, ProtocolStateDispatcher
+    from pyatv.protocols.airplay import AirPlayStream
+    from pyatv.settings import AirPlayVersion, Settings
+    from pyatv.support.rtsp import RtspSession
+    from pyatv.support.state_producer import StateProducer
+
+    st = case["stream"]
+    settings = Settings()
+    if st["select"] == "setting":
+        settings.protocols.raop.protocol_version = AirPlayVersion.V1 if st["version"] == "v1" else AirPlayVersion.V2
+        props = {"features": "0x0,0x10000" if st["version"] == "v1" else "0x0"}      # the setting wins over the announcement
+    else:
+        props = {"features": "0x0,0x10000"} if st["version"] == "v2" else ({"features": "0x4A7FCA00"} if W.wseed % 2 else {})
+    service = MutableService("id", Protocol.AirPlay, 7000, props, credentials=stored_string(W, st["stored"]))
+    config = conf.AppleTV("127.0.0.1", "verif")
+    config.add_service(service)
+    core = Core(asyncio.get_event_loop(), config, service, settings, StateProducer(), types.SimpleNamespace(session=None),
+                lambda *a: (lambda: None), ProtocolStateDispatcher(Protocol.AirPlay, CoreStateDispatcher()))
+    conn = fake_http(resp)
+    before = (conn.receive_processor, conn.send_processor)
+    exc = proto = None
+    try:
+        proto = AirPlayStream(core).create_airplay_protocol(service, RtspSession(conn))
+        if st["entry"] == "setup":
+            await proto.setup(1, 2)
+        else:
+            await proto.play_url(1, "http://127.0.0.1/media.mp4", 0.0)
+    except BaseException as ex:  # noqa
+        exc = ex
+    finally:
+        try:
+            if proto is not None:
+                proto.teardown()
+        except Exception:
+            pass
+    o = obs_record("airplay-%s-%s" % (st["version"], st["entry"]), resp, pt, exc,
+                   conn.receive_processor is not before[0] or conn.send_processor is not before[1])
+    o["klass"] = type(proto).__name__ if proto is not None else None
+    o["log"] = list(conn.log)
+    o["used"] = any(k == "other" for _, _, k in conn.log)
+    # what the entry point raised before it used the accessory
+    o["surfaced_before_use"] = None if o["used"] else o["surfaced"]
+    return o
+
+
+def gen_stream(ctx, W, full):
+    out = []
+    L = base_lengths(W)
+    hap_replies = [("genuine", {}), ("signed-by-B", {"signer": "B"}), ("attacker", {"eph": "M", "signer": "B"}),
+                   ("accessory-B", {"eph": "B", "id": "B", "signer": "B"}), ("flip-enc", {"mut": [["enc", "flip", ctx.rng.randrange(8 * L["enc"])]]}),
+                   ("flip-sig", {"mut": [["sig", "flip", ctx.rng.randrange(512)]]}), ("flip-spub", {"mut": [["spub", "flip", ctx.rng.randrange(255)]]}),
+                   ("trunc-spub", {"mut": [["spub", "trunc", 31]]}), ("missing-enc", {"drop": ["outer-enc"]}), ("missing-sig", {"drop": ["inner-sig"]}),
+                   ("lone-tag", {"mut": [["inner", "append", "01"]]}), ("error-item", {"drop": ["outer-pubkey", "outer-enc"], "outer_extra": [[7, "02"]]}),
+                   ("other-id-signed", {"mut": [["id", "flip", 5]], "sign_mutated_id": True}),
+                   ("replayed-signature", {"sign_cpub": "other"})]
+    if full:
+        for _ in range(40):
+            field = ctx.rng.choice(["spub", "enc", "id", "sig", "inner", "pd"])
+            hap_replies.append(("fuzz", {"mut": [[field, "flip", ctx.rng.randrange(8 * L[field])]]}))
+    for ver, entry in STREAM_ENTRIES:
+        for select in ("setting", "announced"):
+            for stored in ("hap", "legacy", None, "transient", "null"):
+                for name, spec in (hap_replies if stored == "hap" else hap_replies[:2]):
+                    out.append({"family": "stream:%s-%s:%s:stored-%s:%s" % (ver, entry, select, stored, name), "spec": spec, "cvar": None,
+                                "f1": None, "f3": None, "wseed": W.wseed, "id_len": len(W.acc["A"].ident),
+                                "stream": {"version": ver, "entry": entry, "select": select, "stored": stored}})
+    return out
+
+
+def evaluate_stream(W, case):
+    resp = Responder(W, case["spec"])
+    with Patches(W) as pt:
+        resp.shim = pt.shim
+        o = vloop.run(drive_stream_entry, W, case, resp, pt)
+    res = {"obs": [o], "v1": None, "judge": None, "pd": None, "cpub": None, "cpriv": None, "harness_error": None}
+    st = case["stream"]
+    if o["klass"] != STREAM_CLASS[st["version"]]:
+        res["harness_error"] = "create_airplay_protocol built %s for a case meant for %s" % (o["klass"], STREAM_CLASS[st["version"]])
+        return res
+    if st["stored"] != "hap":
+        res["judge"] = {"genuine": False, "why": "stored credentials are not HAP", "tables": None, "fields": None}
+        return res
+    if o["cpub"] is None or o["cpriv"] is None:
+        res["judge"] = {"genuine": False, "why": "no HAP pair-verify exchange took place", "tables": None, "fields": None}
+        return res
+    pd = respond(W, case["spec"], o["cpub"])
+    res.update(pd=pd, cpub=o["cpub"], cpriv=o["cpriv"], judge=judge(W, None, o["cpriv"], o["cpub"], pd))
+    return res
+
+
+def stream_errors(case, res):
+    """With stored HAP (or legacy) credentials the first thing on the connection is the verify
+    exchange for those credentials; a peer that does not prove the stored identity gets
+    AuthenticationError and nothing further is sent to it."""
+    st, o, j = case["stream"], res["obs"][0], res["judge"]
+    fam = "airplay-" + st["version"]
+    first = o["log"][0][2] if o["log"] else None
+    errs = []
+    if st["stored"] == "legacy":
+        if o["used"] and first != "legacy-verify":
+            errs.append(("C06:%s:verify-exchange-skipped" % fam,
+                         "%s with stored legacy credentials sent %s without running the legacy device verification first" % (o["proto"], o["log"][0][:2])))
+        return errs
+    if st["stored"] != "hap":
+        return errs
+    if (o["used"] or o["keys"]) and not j["genuine"]:
+        errs.append(("C06:%s:forged-reply-accepted" % fam,
+                     "%s with stored HAP credentials went on to use the accessory (%s) although it did not prove the paired identity (%s)"
+                     % (o["proto"], ", ".join("%s %s" % x[:2] for x in o["log"] if x[2] == "other")[:120], j["why"])))
+    if o["used"] and first != "hap-verify":
+        errs.append(("C06:%s:verify-exchange-skipped" % fam, "%s: first request on the connection was %s, not the HAP pair-verify" % (o["proto"], o["log"][0][:2])))
+    if not o["used"] and not j["genuine"] and o["surfaced"] != "EAuthentication":
+        errs.append(("C06:%s:wrong-exception" % fam,
+                     "%s: a reply that does not prove the identity (%s) surfaced as %s instead of AuthenticationError" % (o["proto"], j["why"], o["surfaced_repr"])))
+    return errs
+
+
+def coq_stream_case(W, case, res, nm):
+    t = nm.term
+    ltpk, ltsk, atv, cid = W.creds(None)
+    h = "{| v_priv := %s; v_pub := %s |}" % (t(res["cpriv"]), t(res["cpub"]))
+    c = "{| ltpk := %s; ltsk := %s; atv_id := %s; client_id := %s |}" % (t(ltpk), t(ltsk), t(atv), t(cid))
+    tab = coq_tables(res["judge"]["tables"], t)
+    o = res["obs"][0]
+
+    def opte(e):
+        return "None" if e is None else "(Some %s)" % e
+
+    raw = None if o["raw"] == "Accept" else o["raw"]
+    ob = "(%s, %s, %s, %s, %s, %s)" % ("V1" if case["stream"]["version"] == "v1" else "V2", opte(raw),
+                                        "None" if o["m3"] is None else "(Some %s)" % t(o["m3"]), opte(o["surfaced_before_use"]),
+                                        common.cbool(o["used"]), common.cbool(o["keys"]))
+    return "(%s, %s, %s, %s, %s, [%s])" % (h, c, tab, t(res["pd"]), t(m4_of(case["spec"])), ob)
+
+
+def coq_stream_files(items, per=100):
+    files = []
+    for i in range(0, len(items), per):
+        chunk = items[i:i + per]
+        nm = Namer()
+        for W, case, res in chunk:
+            for b in case_bytes(W, case, res):
+                nm.see(b)
+        terms = [coq_stream_case(W, case, res, nm) for W, case, res in chunk]
+        txt = (COQ_PRELUDE + "%sDefinition cases : list stcase := [\n%s\n].\nEval vm_compute in (bad_indices (check_stream v1_mapped cfg) cases).\n"
+               % (nm.preamble(), ";\n".join(terms)))
+        files.append(("stream_%03d" % (i // per), txt, chunk))
+    return files
 
 
 # --------------------------------------------------------------------------- credentials replaced while the object exists
@@ -1849,6 +2041,8 @@ def eval_one(arg):
             res = evaluate_announced(W, case)
         elif case.get("history"):
             res = evaluate_history(W, case)
+        elif case.get("stream"):
+            res = evaluate_stream(W, case)
         else:
             res = evaluate(W, case, protos=protos)
     except BaseException as ex:  # noqa
